@@ -38,10 +38,23 @@ use crate::pattern::MultiPattern;
 use crate::worker::Worker;
 pub use nucleo_matcher::{chars, Config, Matcher, Utf32Str, Utf32String};
 
+#[cfg(feature = "verif-hooks")]
+macro_rules! verif_point {
+    ($point:ident) => {
+        crate::verif::hit(crate::verif::Point::$point)
+    };
+}
+#[cfg(not(feature = "verif-hooks"))]
+macro_rules! verif_point {
+    ($point:ident) => {};
+}
+
 mod boxcar;
 mod par_sort;
 pub mod pattern;
 mod worker;
+#[cfg(feature = "verif-hooks")]
+pub mod verif;
 
 #[cfg(test)]
 mod tests;
@@ -382,6 +395,7 @@ impl<T: Sync + Send + 'static> Nucleo<T> {
     /// worker therad to finish. It is recommend to set the timeout to 10ms.
     pub fn tick(&mut self, timeout: u64) -> Status {
         self.should_notify.store(false, atomic::Ordering::Relaxed);
+        verif_point!(TickAfterClearNotify);
         let status = self.pattern.status();
         let canceled = status != pattern::Status::Unchanged || self.state.canceled();
         let mut res = self.tick_inner(timeout, canceled, status);
@@ -401,8 +415,11 @@ impl<T: Sync + Send + 'static> Nucleo<T> {
             self.canceled.store(true, atomic::Ordering::Relaxed);
             self.worker.lock_arc()
         } else {
+            verif_point!(TickBeforeTryLock);
             let Some(worker) = self.worker.try_lock_arc_for(Duration::from_millis(timeout)) else {
+                verif_point!(TickTryLockFailed);
                 self.should_notify.store(true, Ordering::Release);
+                verif_point!(TickAfterRearm);
                 return Status {
                     changed: false,
                     running: true,
@@ -411,6 +428,7 @@ impl<T: Sync + Send + 'static> Nucleo<T> {
             worker
         };
 
+        verif_point!(TickLockTaken);
         let changed = inner.running;
 
         let running = canceled || self.items.count() > inner.item_count();
@@ -430,6 +448,7 @@ impl<T: Sync + Send + 'static> Nucleo<T> {
             if cleared {
                 inner.items = self.items.clone();
             }
+            verif_point!(TickBeforeSpawn);
             self.pool
                 .spawn(move || unsafe { inner.run(status, cleared) })
         }
